@@ -221,6 +221,24 @@ def handle (line : String) : String :=
     match parseXNames n with
     | some [n] => (match ianaNow n with | some e => s!"ok {asciiOfName e}" | none => "ok none")
     | _ => "bad-op"
+  | ["codecid", n] =>
+    match parseXNames n with
+    | some [n] => (match lookupName Gen.labelCodec (normLabel n) with
+                   | some e => s!"ok {asciiOfName e}" | none => "ok none")
+    | _ => "bad-op"
+  | ["aliases", n] =>
+    match parseXNames n with
+    | some [n] => (match lookupName Gen.aliases n with
+                   | some l => "ok " ++ ",".intercalate (l.map asciiOfName) | none => "ok none")
+    | _ => "bad-op"
+  | ["ismb", n] =>
+    match parseXNames n with
+    | some [n] => s!"ok {if tablesNow.isMultiByte n then 1 else 0}"
+    | _ => "bad-op"
+  | ["similar", a, b] =>
+    match parseXNames a, parseXNames b with
+    | some [a], some [b] => s!"ok {if tablesNow.similar a b then 1 else 0}"
+    | _, _ => "bad-op"
   | ["sig", bh] =>
     match unhex bh with
     | some b => (match sigOf tablesNow.marks b with
